@@ -25,6 +25,37 @@ pub struct Use {
 pub struct Case {
     /// files[f] = loads of file f; targets have a higher index than f (acyclic)
     pub files: Vec<Vec<Use>>,
+    /// in_sub[f]: file f (f >= 1) lives in `sub/`; a root-level module is then found only by the fallback that tries
+    /// the URL unchanged from the base directory
+    #[serde(default)]
+    pub in_sub: Vec<bool>,
+}
+
+fn sub(c: &Case, f: usize) -> bool {
+    f > 0 && c.in_sub.get(f).copied().unwrap_or(false)
+}
+
+fn fname(c: &Case, f: usize) -> String {
+    if sub(c, f) { format!("sub/{}", file_name(f)) } else { file_name(f) }
+}
+
+/// URL of target t as written in file f
+fn url_of(c: &Case, f: usize, t: usize, s: usize) -> String {
+    match (sub(c, f), sub(c, t)) {
+        // siblings, or a root module seen from sub/ (relative lookup fails, the unchanged URL is found from the base directory)
+        (false, false) | (true, true) | (true, false) => spell(t, s),
+        (false, true) => {
+            let n = NAMES[t];
+            match s % N_SPELLINGS {
+                0 => format!("sub/{n}"),
+                1 => format!("./sub/{n}"),
+                2 => format!("sub/d/../{n}"),
+                3 => format!("d/../sub/{n}"),
+                4 => format!("sub/_{n}"),
+                _ => format!("sub/_{n}.scss"),
+            }
+        }
+    }
 }
 
 fn ordered(c: &Case, f: usize) -> Vec<&Use> {
@@ -50,7 +81,7 @@ fn source(c: &Case, f: usize) -> String {
     let mut s = String::new();
     let loads = ordered(c, f);
     for (i, u) in loads.iter().enumerate() {
-        let url = spell(u.target, u.spelling);
+        let url = url_of(c, f, u.target, u.spelling);
         if u.forward {
             s.push_str(&format!("@forward \"{url}\";\n"));
         } else {
@@ -139,9 +170,9 @@ fn cases(n: usize) -> impl Strategy<Value = Case> {
             proptest::collection::vec((proptest::bool::weighted(0.3), lo..n, 0..N_SPELLINGS, proptest::option::weighted(0.4, 100u32..1000), proptest::option::weighted(0.25, 1000u32..2000)).prop_map(|(forward, target, spelling, assign, with)| Use { forward, target, spelling, assign, with: if forward { None } else { with } }), 0..=3).boxed()
         }
     };
-    (0..n).map(file).collect::<Vec<_>>().prop_map(|files| {
+    ((0..n).map(file).collect::<Vec<_>>(), proptest::collection::vec(proptest::bool::weighted(0.3), n)).prop_map(|(files, in_sub)| {
         // a file may not load the same module twice with @use under two namespaces *and* forward it; that is legal, keep it
-        Case { files }
+        Case { files, in_sub }
     })
 }
 
@@ -152,17 +183,17 @@ impl Prop for C03 {
         C03
     }
     fn rule(&self) -> String {
-        "acyclic @use/@forward graphs over 3 and 4 files (root a, partials _b, _c, _d), up to 3 loads per file, every load spelled as one of `t`, `./t`, `d/../t`, `d/./../t`, `_t`, `_t.scss`; every module owns a variable, emits a marker rule and a rule printing its own variable and every variable it can see through each namespace (also through @forward chains); a quarter of the @use loads configure the target (`with`; on a load that is not the module's first one an error is accepted, otherwise the configuration is ignored by the model); 40% of the @use loads assign a new value to the target's variable through the namespace. Oracle: a one-instance-per-module model predicts the exact sequence of rules and every printed value; the output is read with the independent CSS reader. Non-trivial: a module reachable by two paths or two spellings; distinct by graph".into()
+        "acyclic @use/@forward graphs over 3 and 4 files (root a, partials _b, _c, _d, each with probability 0.3 in sub/, so that some modules are found relative to their user and others only by the unchanged URL from the base directory), up to 3 loads per file, every load spelled as one of `t`, `./t`, `d/../t`, `d/./../t`, `_t`, `_t.scss`; every module owns a variable, emits a marker rule and a rule printing its own variable and every variable it can see through each namespace (also through @forward chains); a quarter of the @use loads configure the target (`with`; on a load that is not the module's first one an error is accepted, otherwise the configuration is ignored by the model); 40% of the @use loads assign a new value to the target's variable through the namespace. Oracle: a one-instance-per-module model predicts the exact sequence of rules and every printed value; the output is read with the independent CSS reader. Non-trivial: a module reachable by two paths or two spellings; distinct by graph".into()
     }
     fn phases(&self, tier: Tier) -> Vec<Phase<Case>> {
         vec![Phase::random("3-files", cases(3), tier.pick(15_000, 600_000)), Phase::random("4-files", cases(4), tier.pick(15_000, 600_000))]
     }
     fn render(&self, c: &Case) -> serde_json::Value {
-        serde_json::json!((0..c.files.len()).map(|f| (file_name(f), source(c, f))).collect::<Vec<_>>())
+        serde_json::json!((0..c.files.len()).map(|f| (fname(c, f), source(c, f))).collect::<Vec<_>>())
     }
     fn check(&self, c: &Case) -> Verdict {
         let _ = Kind::Use;
-        let files: Vec<(String, String)> = (0..c.files.len()).map(|f| (file_name(f), source(c, f))).collect();
+        let files: Vec<(String, String)> = (0..c.files.len()).map(|f| (fname(c, f), source(c, f))).collect();
         let want = model(c);
         let out = match rs::compile_files(&files, "a.scss", &Opts::default()) {
             Res::Ok(o) => String::from_utf8_lossy(&o).to_string(),
